@@ -98,6 +98,8 @@ fn main() {
             let mut out = String::new();
             let mut only: Option<Vec<String>> = None;
             let mut range: Option<(u64, u64)> = None;
+            let mut sample: Option<u64> = None;
+            let mut max_ms: u128 = u128::MAX;
             let mut i = 3;
             while i < args.len() {
                 let v = args.get(i + 1).cloned().unwrap_or_default();
@@ -110,6 +112,8 @@ fn main() {
                     }
                     "--out" => out = v,
                     "--lanes" => only = Some(v.split(',').map(|s| s.to_string()).collect()),
+                    "--sample" => sample = Some(v.parse().unwrap()),
+                    "--max-ms" => max_ms = v.parse().unwrap(),
                     "--range" => {
                         let (a, b) = v.split_once(':').unwrap();
                         range = Some((a.parse().unwrap(), b.parse().unwrap()));
@@ -144,18 +148,39 @@ fn main() {
                     let (lo, hi) = range.unwrap_or((0, n));
                     let mut done = 0u64;
                     let t0 = std::time::Instant::now();
-                    let mut idx = lo;
-                    while idx < hi.min(n) {
-                        if range.is_none() && (idx / BLOCK) % shard.1 != shard.0 {
-                            idx = (idx / BLOCK + 1) * BLOCK;
-                            continue;
+                    if let Some(k) = sample {
+                        // sanitizer tiers: a reproducible random sample of the lane's index space
+                        let mut x = rt::fnv(format!("{}|{}|{}|{}", seed, prop, l.name, shard.0).as_bytes());
+                        for _ in 0..k.min(n) {
+                            if t0.elapsed().as_millis() > max_ms {
+                                ctx.add(&format!("stopped-by-time:{}", l.name), 1);
+                                break;
+                            }
+                            let idx = rt::splitmix(&mut x) % n;
+                            ctx.idx = idx;
+                            ctx.inflight.set(l.name, idx);
+                            rt::set_live_cap(CASE_LIVE_CAP);
+                            run_case(&mut ctx, l.run, idx);
+                            done += 1;
                         }
-                        ctx.idx = idx;
-                        ctx.inflight.set(l.name, idx);
-                        rt::set_live_cap(CASE_LIVE_CAP);
-                        run_case(&mut ctx, l.run, idx);
-                        done += 1;
-                        idx += 1;
+                    } else {
+                        let mut idx = lo;
+                        while idx < hi.min(n) {
+                            if range.is_none() && (idx / BLOCK) % shard.1 != shard.0 {
+                                idx = (idx / BLOCK + 1) * BLOCK;
+                                continue;
+                            }
+                            if t0.elapsed().as_millis() > max_ms {
+                                ctx.add(&format!("stopped-by-time:{}", l.name), 1);
+                                break;
+                            }
+                            ctx.idx = idx;
+                            ctx.inflight.set(l.name, idx);
+                            rt::set_live_cap(CASE_LIVE_CAP);
+                            run_case(&mut ctx, l.run, idx);
+                            done += 1;
+                            idx += 1;
+                        }
                     }
                     ctx.inflight.clear();
                     ctx.add(&format!("cases:{}", l.name), done);
